@@ -376,6 +376,11 @@ var soupTokens = []string{
 	"?", "=>", "->", "<>", "$", "${", "~", "@", "#", "\n", "\n", "//c\n", "/*c*/", "#!c\n",
 	"break", "case", "chan", "const", "continue", "default", "defer", "else", "fallthrough", "for", "func", "go", "goto", "if", "import",
 	"interface", "map", "package", "range", "return", "select", "struct", "switch", "type", "var",
+	// multi-token snippets of XGo constructs (structure that single tokens rarely assemble)
+	"L:", "goto L", "break L", "continue L", "x => {", "(a, b) =>", "() =>", "=> (", "}()", "func() {", "func(a int) int {", "[x for x in y]",
+	"{k: v for k, v in m}", "for x in y {", "for i, v <- a, i > 1 {", "a!", "a?:b", "1:10:2", "var (", "const (", "import \"a\"", "type T struct {",
+	"tpl`a = b`", "tpl`a = b => { return self }`", "json`> x, y; z`", "echo \"${x}\"", "if x := f(); x {", "} else {", "switch x.(type) {", "case a, b:",
+	"select {", "case v := <-ch:", "go f(", "defer f(", "[1, 2; 3, 4]", "[]int{1, 2}", "map[string]int{", "x.(T)", "a[1:2:3]", "f x, y", "f -x", "x...",
 }
 
 type tokSpan struct{ off, end int }
